@@ -14,7 +14,7 @@ RULE = ("a case is a history of 2-40 steps {new KeyFile object, enter, exit (pro
         "from a file state in {absent, valid, empty, 1/16/31/33/64 bytes, parent directory missing, parent is a "
         "regular file}; checked against a 20-line model (file bytes; per object: depth, key); non-trivial = at least "
         "one enter and one encrypt/decrypt were judged; distinct = distinct (initial state, step list)")
-REQUIRED = ("exits_with_exception", "enter_ok_judged", "enter_rejected_judged", "key_measured_from_xor", "outside_context_rejected",
+REQUIRED = ("key_file_named_relative_to_home", "key_file_replaced_with_preserved_timestamps", "exits_with_exception", "enter_ok_judged", "enter_rejected_judged", "key_measured_from_xor", "outside_context_rejected",
             "retention_scans", "created_once_checked", "nested_enter_judged", "reenter_after_rejection_judged")
 ASSUMPTIONS = ["the key in use is measured as xor_ciphertext XOR known_plaintext (48 bytes) and by decrypting AES "
                "output with the pure-Python oracle under the expected key",
@@ -90,6 +90,8 @@ def generate(rng, ctx):
                 steps.append(["new", o])
         elif kind == "file" and where == "ok":
             st = _file_state(rng)
+            if rng.random() < 0.4:
+                st["keep_times"] = True
             steps.append(["file", st])
             bad_now = st["state"] == "bad"
             last_failed_obj = None
@@ -97,7 +99,9 @@ def generate(rng, ctx):
     for o in range(nobj):
         for _ in range(depth[o]):
             steps.append(["exit", o])
-    return {"where": where, "init": init, "nobj": nobj, "steps": steps}
+    return {"where": where, "init": init, "nobj": nobj, "steps": steps,
+            # how the key file is named to the library: absolute, or relative to the home directory
+            "pathform": rng.choice(["abs", "abs", "home"]) if where == "ok" else "abs"}
 
 
 def _scan(obj, key, depth=0, seen=None):
@@ -133,8 +137,17 @@ def _put(path, st):
         except OSError:
             pass
     else:
+        old = None
+        if st.get("keep_times"):
+            try:
+                old = os.stat(path)
+            except OSError:
+                old = None
         with open(path, "wb") as fp:
             fp.write(st["bytes"])
+        if old is not None:
+            # restored / deployed with preserved timestamps (cp -p, rsync -t): same mtime, other content
+            os.utime(path, ns=(old.st_atime_ns, old.st_mtime_ns))
 
 
 def _read(path):
@@ -148,7 +161,14 @@ def _read(path):
 def run(case, ctx, res):
     cc = ctx.cc
     where = case["where"]
-    if where == "ok":
+    given = None
+    if where == "ok" and case.get("pathform") == "home":
+        hd = os.path.join(os.path.expanduser("~"), "c07-" + os.path.basename(ctx.dir))
+        os.makedirs(hd, exist_ok=True)
+        path = os.path.join(hd, "app.key")
+        given = "~/" + os.path.basename(hd) + "/app.key"
+        res.count("key_file_named_relative_to_home")
+    elif where == "ok":
         path = os.path.join(ctx.dir, "app.key")
     elif where == "parent_missing":
         path = os.path.join(ctx.dir, "nodir", "app.key")
@@ -158,8 +178,9 @@ def run(case, ctx, res):
         path = os.path.join(ctx.dir, "plainfile", "app.key")
     if where == "ok":
         _put(path, case["init"])
-    log = FileLog(ctx.dir)
-    objs = [cc.KeyFile(path) for _ in range(case["nobj"])]
+    given = given or path
+    log = FileLog(ctx.sb.root)
+    objs = [cc.KeyFile(given) for _ in range(case["nobj"])]
     depth = [0] * case["nobj"]
     key = [None] * case["nobj"]
     everkeys = []  # every key or rejected content an object may have seen
@@ -174,6 +195,8 @@ def run(case, ctx, res):
         if where != "ok":
             feat = "%s@%s" % (kind, where)
         if kind == "file":
+            if step[1].get("keep_times") and step[1]["state"] != "absent" and model_file is not None:
+                res.count("key_file_replaced_with_preserved_timestamps")
             _put(path, step[1])
             model_file = _read(path)
             rejected_before.clear()
@@ -181,7 +204,7 @@ def run(case, ctx, res):
         o = step[1]
         kf = objs[o]
         if kind == "new":
-            objs[o] = cc.KeyFile(path)
+            objs[o] = cc.KeyFile(given)
             depth[o], key[o] = 0, None
             rejected_before.discard(o)
             continue
